@@ -18,6 +18,13 @@ for n in $NAMES; do
   S=$(mktemp -d ${TMPDIR:-/var/tmp}/verif-seed.XXXXXX)
   rsync -a $RSNAP/ $S/
   (cd $S && git init -q . && git apply /verif/seeded/$n/patch.diff) || { echo "$n: PATCH DOES NOT APPLY"; rm -rf $S; continue; }
+  # OWN=1: only the check of the seed's own property, nothing recorded (a quick pass after a change to the machinery)
+  if [ -n "$OWN" ]; then
+    p=${n:0:3}
+    OUT=$(VERIF_REPO=$S VERIF_EVIDENCE_DIR=$S/.evidence $SNAP/check $p 2>&1); RC=$?
+    if [ $RC -eq 1 ]; then echo "$n: raised by its own check $p"; else echo "$n: NOT RAISED by $p (exit $RC)"; echo "$OUT" | grep -e '^UNDECIDED' | head -3; fi
+    rm -rf $S; continue
+  fi
   : > seeded/$n/RESULT.txt
   RAISED=""; UNDEC=""
   for p in $CHECKS; do
